@@ -369,14 +369,14 @@ class Engine:
     # dicts ---------------------------------------------------------------
     def dkeys(self, st, dv):
         k = dv.kind[1]
-        return z3.Select(self.arr(st, "DK|%s" % (k,), z3.IntSort(), z3.ArraySort(sort_of(k), z3.BoolSort())), dv.t)
+        return z3.Select(self.arr(st, "DK|%s|%s" % (k, dv.kind[2]), z3.IntSort(), z3.ArraySort(sort_of(k), z3.BoolSort())), dv.t)
 
     def dvals_key(self, dv, vk):
         return "DV|%s|%s" % (dv.kind[1], vk)
 
     def dord(self, st, dv):
         k = dv.kind[1]
-        return z3.Select(self.arr(st, "DO|%s" % (k,), z3.IntSort(), z3.SeqSort(sort_of(k))), dv.t)
+        return z3.Select(self.arr(st, "DO|%s|%s" % (k, dv.kind[2]), z3.IntSort(), z3.SeqSort(sort_of(k))), dv.t)
 
     def dict_has(self, st, dv, key):
         return z3.Select(self.dkeys(st, dv), key.t)
@@ -424,7 +424,7 @@ class Engine:
         if idx is None:
             raise Unsupported("dict value of kind %s stored in %s" % (val.kind, dv.kind))
         st = st.copy()
-        kk = "DK|%s" % (dv.kind[1],)
+        kk = "DK|%s|%s" % (dv.kind[1], dv.kind[2])
         keys_all = self.arr(st, kk, z3.IntSort(), z3.ArraySort(K, z3.BoolSort()))
         oldkeys = z3.Select(keys_all, dv.t)
         st.heap[kk] = z3.Store(keys_all, dv.t, z3.Store(oldkeys, key.t, z3.BoolVal(True)))
@@ -438,7 +438,7 @@ class Engine:
             vall = self.arr(st, vk, z3.IntSort(), z3.ArraySort(K, sort_of(k)))
             st.heap[vk] = z3.Store(vall, dv.t, z3.Store(z3.Select(vall, dv.t), key.t, val.t))
         if dv.kind.tag == "odict":
-            ok = "DO|%s" % (dv.kind[1],)
+            ok = "DO|%s|%s" % (dv.kind[1], dv.kind[2])
             oall = self.arr(st, ok, z3.IntSort(), z3.SeqSort(K))
             oseq = z3.Select(oall, dv.t)
             st.heap[ok] = z3.Store(oall, dv.t, z3.If(z3.Select(oldkeys, key.t), oseq, z3.Concat(oseq, z3.Unit(key.t))))
@@ -447,7 +447,7 @@ class Engine:
     def dict_del(self, st, dv, key):
         K = sort_of(dv.kind[1])
         st = st.copy()
-        kk = "DK|%s" % (dv.kind[1],)
+        kk = "DK|%s|%s" % (dv.kind[1], dv.kind[2])
         keys_all = self.arr(st, kk, z3.IntSort(), z3.ArraySort(K, z3.BoolSort()))
         st.heap[kk] = z3.Store(keys_all, dv.t, z3.Store(z3.Select(keys_all, dv.t), key.t, z3.BoolVal(False)))
         if dv.kind.tag == "odict":
@@ -459,11 +459,11 @@ class Engine:
         dv = V(kind, r)
         K = sort_of(kind[1])
         st = st.copy()
-        kk = "DK|%s" % (kind[1],)
+        kk = "DK|%s|%s" % (kind[1], kind[2])
         keys_all = self.arr(st, kk, z3.IntSort(), z3.ArraySort(K, z3.BoolSort()))
         st.heap[kk] = z3.Store(keys_all, r, z3.K(K, z3.BoolVal(False)))
         if kind.tag == "odict":
-            ok = "DO|%s" % (kind[1],)
+            ok = "DO|%s|%s" % (kind[1], kind[2])
             oall = self.arr(st, ok, z3.IntSort(), z3.SeqSort(K))
             st.heap[ok] = z3.Store(oall, r, z3.Empty(z3.SeqSort(K)))
         return st, dv
@@ -1512,11 +1512,37 @@ class Engine:
                 hints = getattr(self.R, "local_kinds", {}).get(self.frame.qual, {})
                 if target.id in hints:
                     k = parse_kind(hints[target.id])
+            elif isinstance(target, ast.Subscript):
+                bk = self._static_kind(target.value)
+                if bk is not None and bk.tag in ("dict", "odict"):
+                    for a in alts(bk[2]):
+                        if a.tag in ("list", "dict", "odict"):
+                            k = a
             if k is not None:
                 if k.tag == "list":
                     value._pyvc_kind = k[1]
                 else:
                     value._pyvc_kind = k
+
+    def _static_kind(self, expr):
+        """declared kind of self.f / self.f[k] / self.f[k][j] (for hints of empty displays)"""
+        if isinstance(expr, ast.Attribute) and isinstance(expr.value, ast.Name) and expr.value.id == "self":
+            fk = self.R.field_kind(self._self_class(), expr.attr, self.P)
+            if fk is None:
+                return None
+            for a in alts(fk):
+                if a.tag in ("list", "dict", "odict"):
+                    return a
+            return None
+        if isinstance(expr, ast.Subscript):
+            bk = self._static_kind(expr.value)
+            if bk is not None and bk.tag in ("dict", "odict"):
+                for a in alts(bk[2]):
+                    if a.tag in ("list", "dict", "odict"):
+                        return a
+            if bk is not None and bk.tag == "list":
+                return bk[1]
+        return None
 
     def _self_class(self):
         sv = self.frame.params.get("self")
